@@ -170,6 +170,71 @@ def ref_scan(expected, tdefs, custom, inp, pos, lexical_disambiguation, ignore_c
     return sorted(res + [(n, v) for n, v, _ in matches]), reason or "single", explicit, nmatch
 
 
+def admissible_outcomes(expected, tdefs, custom, inp, pos, lexical_disambiguation, ignore_case, stop_expected):
+    """Events with an explicit finish/nofinish mark: the outcome depends on the
+    order in which candidates are tried.  The documented order is a partial one
+    (priority first, string recognizers - longer first - before regexes); the
+    set of admissible outcomes is what the flag driven scan gives under *some*
+    linear order consistent with it, with implicit flags as documented (string
+    and keyword terminals finish, a regex finishes iff the next candidate has a
+    strictly lower priority) and explicit flags honoured."""
+    import itertools
+
+    res = []
+    if stop_expected and pos == len(inp):
+        res.append(("STOP", ""))
+    cands = [n for n in expected if n in tdefs]
+    by_prior = {}
+    for n in cands:
+        by_prior.setdefault(tdefs[n].prior, []).append(n)
+    groups = []
+    for pr in sorted(by_prior, reverse=True):
+        strs = [n for n in by_prior[pr] if tdefs[n].kind in ("str", "kw") and n not in custom]
+        regs = [n for n in by_prior[pr] if n not in strs]
+        # strings: longer first, ties in any order
+        bylen = {}
+        for n in strs:
+            bylen.setdefault(len(tdefs[n].text), []).append(n)
+        parts = [list(itertools.permutations(bylen[L])) for L in sorted(bylen, reverse=True)]
+        parts.append(list(itertools.permutations(regs)))
+        groups.append(parts)
+    flat_parts = [p for g in groups for p in g]
+    outcomes = set()
+    count = 0
+    for combo in itertools.product(*flat_parts):
+        count += 1
+        if count > 3000:
+            return None
+        order = [n for part in combo for n in part]
+        toks = []
+        last_prior = -1
+        for i, n in enumerate(order):
+            d = tdefs[n]
+            if d.prior < last_prior and toks:
+                break
+            last_prior = d.prior
+            if d.finish is not None:
+                flag = d.finish
+            elif d.kind in ("str", "kw") and n not in custom:
+                flag = True
+            else:
+                flag = i + 1 < len(order) and tdefs[order[i + 1]].prior < d.prior
+            e = d.match(inp, pos, ignore_case) if pos < len(inp) else None
+            if e is not None:
+                toks.append((n, inp[pos:e]))
+                if flag:
+                    break
+        if lexical_disambiguation and len(toks) > 1:
+            ml = max(len(v) for _, v in toks)
+            toks = [t for t in toks if len(t[1]) == ml]
+            if len(toks) > 1:
+                pref = [t for t in toks if tdefs[t[0]].prefer]
+                if pref:
+                    toks = pref
+        outcomes.add(tuple(sorted(res + toks)))
+    return outcomes
+
+
 def run(ctx):
     mon = LRMonitor(record_events=True)
     mon.install()
@@ -260,6 +325,10 @@ def check_input(ctx, mon, parser, case, tdefs, custom, w):
         ctx.case(key, nmatch >= 2, sample={"grammar": case["grammar"], "mode": case["mode"], "input": w, "position": pos, "expected": expected, "returned": got, "rule": reason})
         if nmatch >= 2:
             ctx.count("events.multi_match")
+        if explicit and not ld:
+            # without lexical disambiguation there are no finish flags at all: every
+            # matching expected terminal of the highest matching priority is pursued
+            explicit = False
         if explicit:
             ctx.count("events.explicit_mark")
             # admissible: every returned token is a matching expected terminal of the highest matching priority
@@ -267,6 +336,16 @@ def check_input(ctx, mon, parser, case, tdefs, custom, w):
             if not set(got) <= set(adm) or (adm and not got):
                 ctx.violation("inadmissible-token", dict(case, position=pos, state=state.state_id), "returned %s, admissible %s" % (got, adm))
                 return
+            outs = admissible_outcomes(expected, tdefs, custom, w, pos, ld, case["ignore_case"], STOP in state.actions)
+            if outs is not None:
+                ctx.count("events.explicit_mark_judged_by_order_model")
+                if tuple(got) not in outs:
+                    ctx.violation(
+                        "explicit-mark-outcome-not-admissible",
+                        dict(case, position=pos, state=state.state_id),
+                        "at %d expecting %s the scanner returned %s; under every candidate order consistent with the documented one the flag-driven scan gives one of %s" % (pos, expected, got, sorted(outs)[:4]),
+                    )
+                    return
             continue
         ctx.count("events.strict")
         ctx.count("events.winner_by." + reason if reason not in ("none", "ambiguous", "single", "all") else "events." + reason)
